@@ -1,5 +1,6 @@
 import Orx.KSRun
 import Orx.IW.Outs
+import Orx.IW.NoLoss
 /-! # C01 Exactly-once delivery under concurrent pulling -/
 namespace Orx.Props.C01
 open Orx Orx.KS
@@ -47,6 +48,19 @@ theorem iter_delivered_below_yielded (s : IW.Script) (hf : IW.Fused s) (ps : Nat
     (t : Nat) (o : IW.POut) (ho : o ∈ ((IW.run s σ (IW.init ps)).th t).outs) (p : Nat) (hp : p ∈ o.pos) :
     p < (IW.run s σ (IW.init ps)).Y :=
   (IW.oinv_run hf σ (IW.inv_init s ps hok) (IW.oinv_init s ps) hW).belowY t o ho p hp
+
+/-- **Wrapper, exactly once (no loss, nothing extra).** For every fused, non-panicking wrapped iterator, all
+request programs (single, one-shot chunk, buffered, looping; chunk sizes ≥ 1; no skip) and every interleaving:
+once no thread is inside the critical section and some thread has observed the end, a position has been
+delivered **iff** the wrapped iterator produced an element at it. Together with the two no-duplicate theorems
+above: every position of the source sequence is delivered to exactly one caller. -/
+theorem iter_exactly_once (s : IW.Script) (hf : IW.Fused s) (hnp : IW.NoPanic s) (ps : Nat → List IW.Req)
+    (hok : ∀ t, ∀ r ∈ ps t, IW.ReqOk r) (hns : ∀ t, ∀ r ∈ ps t, r ≠ .skip) (σ : List Nat)
+    (hW : (IW.run s σ (IW.init ps)).R < W)
+    (hquiet : ∀ t, ((IW.run s σ (IW.init ps)).th t).pc.inCS = false)
+    (hend : ∃ t, IW.POut.fin ∈ ((IW.run s σ (IW.init ps)).th t).outs) (p : Nat) :
+    IW.Delivered (IW.run s σ (IW.init ps)) p ↔ IW.IsSome (s p) :=
+  IW.exactly_once s hf hnp ps hok hns σ hW hquiet hend p
 
 -- non-vacuity: a 3-thread mixed program satisfies the hypotheses
 def exPs : Nat → List IW.Req
